@@ -62,6 +62,29 @@ int main(int argc, char** argv)
             for (Matrix* m : made) delete m;
             delete A;
         }
+        // --- chains of in-place operations and copies on one object (state left behind by one operation meets the next:
+        //     arrays longer than nnz after remove_duplicates, flags) ---
+        {
+            auto snap = [](Matrix* M) -> Matrix* {          // deep copy that does not go through the library's copy()
+                format_t f = M->format(); Matrix* S = f == COO ? (Matrix*)new COOMatrix(M->n_rows, M->n_cols) : f == CSR ? (Matrix*)new CSRMatrix(M->n_rows, M->n_cols) : (Matrix*)new CSCMatrix(M->n_rows, M->n_cols);
+                S->idx1 = M->idx1; S->idx2 = M->idx2; S->vals = M->vals; S->nnz = M->nnz; S->sorted = M->sorted; S->diag_first = M->diag_first; return S; };
+            Matrix* cur = vh::make_fmt(t, fmt);
+            const char* cops[] = { "rmdup", "copy", "sort", "movediag" };
+            int len = g.range(2, 4);
+            bool forced = g.coin(1, 3); int third = (int[]){ 2, 3, 0 }[g.below(3)];     // remove_duplicates, copy, then an operation that walks the arrays
+            if (forced) len = 3;
+            for (int s2 = 0; s2 < len; s2++) {
+                int k = forced ? (s2 == 0 ? 0 : s2 == 1 ? 1 : third) : ((s2 == 0 && g.coin()) ? 0 : g.below(4));
+                Matrix* before = snap(cur);
+                about(cops[k], fmt, t);
+                Matrix* out = cur;
+                if (k == 0) cur->remove_duplicates(); else if (k == 1) out = cur->copy(); else if (k == 2) cur->sort(); else cur->move_diag();
+                if (E.want()) emit1(cops[k], 0, before, nullptr, out);
+                delete before;
+                if (out != cur) { delete cur; cur = out; }
+            }
+            delete cur;
+        }
         // --- copy / sort / move_diag / remove_duplicates / transpose on a fresh object ---
         const char* ops[] = { "copy", "sort", "movediag", "rmdup", "transpose" };
         for (int k = 0; k < 5; k++) {
